@@ -264,7 +264,7 @@ def c15(tier, seed):
     for c, bmax in ((100, 100), (12, 1)):
         obs.append(Ob('scrub.md.c%d' % c, S, 'h_md', inject=[SCRUB_REGION], defs={'MD_C': c, 'MD_BMAX': bmax}, unwind=4, small_path=True, solver=KISSAT, timeout=900, mem=6, cost=10,
                       functions=sf('md'), note='divisor %d as at the call site, a symbolic 32-bit, b <= %d' % (c, bmax)))
-    return obs + scrubplan_obs()
+    return obs + scrubplan_obs() + [o for o in staterec_obs(tier) if o.name == 'state.i_record.info.roundtrip']
 
 
 def crc_obs(tier):
